@@ -188,6 +188,14 @@ def fixed_families():
                "pkgname": "gen", "packages": pk}
         files[".mockery.yml"] = json.dumps(cfg, indent=1)
         fams.append({"kind": "family", "i": -1 - len(fams), "files": files, "placement": tag})
+    # generic interfaces with every constraint form, the self-referential ones included (what a walk over types does with them must not depend on the run)
+    files = {"g/a.go": "package g\n\nimport \"fmt\"\n\ntype Num interface{ ~int | ~float64 }\n\ntype Cmp[T any] interface{ Less(o T) bool }\n\n"
+             "type Box[T any] interface{ Get() T }\n\ntype Keyed[K comparable, V fmt.Stringer] interface{ Put(k K, v V) }\n\n"
+             "type Sum[N Num] interface{ Add(a, b N) N }\n\ntype Sorter[T interface{ Less(o T) bool }] interface{ Sort(xs []T) []T }\n\n"
+             "type Tree[T Cmp[T]] interface{ Insert(v T) bool }\n"}
+    cfg = {"force-file-write": True, "all": True, "template": "testify", "filename": "mock_{{.InterfaceName}}_test.go", "packages": {MOD + "/g": {}}}
+    files[".mockery.yml"] = json.dumps(cfg, indent=1)
+    fams.append({"kind": "family", "i": -1 - len(fams), "files": files, "placement": "generic-interfaces-all-constraint-forms"})
     # one output file addressed through two spellings of its directory (relative, and through {{.InterfaceDir}}), from a real working directory and
     # from one reached through a symbolic link: both mocks are in the file in every run
     for tag, link in (("one-file-two-dir-spellings", False), ("one-file-two-dir-spellings-cwd-via-symlink", True)):
